@@ -326,8 +326,7 @@ namespace occa {
 
   template <class TM>
   bool trie<TM>::has(const char *c) const {
-    result_t result = get(c);
-    return ((size_t) result.length == strlen(c));
+    return get(c).success();
   }
 
   template <class TM>
